@@ -222,7 +222,18 @@ def scen_disposable():
             if not x.is_disposed:
                 return "is_disposed is False after dispose() returned"
         return x, [body, body], check
-    return [("dispose || dispose", build)]
+
+    def build_default():
+        # no action given: dispose() still makes the object disposed
+        x = d.Disposable()
+        early = []
+
+        def body():
+            x.dispose()
+            if not x.is_disposed:
+                early.append("Disposable() without an action: a dispose() call returned and is_disposed is still False")
+        return x, [body, body], lambda: (early[0] if early else (None if x.is_disposed else "is_disposed is False after dispose() returned"))
+    return [("dispose || dispose", build), ("dispose || dispose (no action given)", build_default)]
 
 
 def scen_boolean():
